@@ -4,7 +4,7 @@
 # pointed at it (VERIF_REPO), with evidence and replays going to a scratch directory. Safe to run while other checks read /repo.
 set -u
 D="$1"; P="$2"; TIER="${3:-quick}"; shift 3 2>/dev/null || shift 2
-W=/tmp/seed/ts_$$
+mkdir -p /tmp/seed; W=/tmp/seed/ts_$$
 E=/var/tmp/vscratch/ev_$$
 git -C /repo worktree add -q --detach "$W" HEAD || exit 2
 trap 'cd /; git -C /repo worktree remove --force "$W"; rm -rf "$E"' EXIT INT TERM
